@@ -780,6 +780,9 @@ fn eval_built<T: HLabel>(env: &mut Env, built: &Built<T>, rng: &mut Rng) {
         // the presentation machinery (store / readers) did not produce the intended framework:
         // that is the business of C12/C13; here the case is unusable
         env.ctx.inconclusive("presentation-mismatch");
+        if e.starts_with(crate::present::PANIC_MARK) {
+            return;
+        }
         env.ctx.harness_error(&format!(
             "presentation does not present the intended graph: {} ({})",
             e,
@@ -831,16 +834,26 @@ pub fn eval_case(
         match build_usize(&case.pres) {
             Ok(b) => eval_built(&mut env, &b, rng),
             Err(e) => {
-                env.ctx.inconclusive("presentation-failed");
-                env.ctx.harness_error(&e);
+                if e.starts_with(crate::present::PANIC_MARK) {
+                    // the store / reader panicked: C12 / C13 report that; this case cannot be judged here
+                    env.ctx.inconclusive("presentation-panicked");
+                } else {
+                    env.ctx.inconclusive("presentation-failed");
+                    env.ctx.harness_error(&e);
+                }
             }
         }
     } else {
         match build_string(&case.pres) {
             Ok(b) => eval_built(&mut env, &b, rng),
             Err(e) => {
-                env.ctx.inconclusive("presentation-failed");
-                env.ctx.harness_error(&e);
+                if e.starts_with(crate::present::PANIC_MARK) {
+                    // the store / reader panicked: C12 / C13 report that; this case cannot be judged here
+                    env.ctx.inconclusive("presentation-panicked");
+                } else {
+                    env.ctx.inconclusive("presentation-failed");
+                    env.ctx.harness_error(&e);
+                }
             }
         }
     }
@@ -922,7 +935,7 @@ pub fn run(ctx: &mut Ctx, prop: Prop) {
             ctx.case_begin(&desc);
             let mut rng = Rng::from_path(&[ctx.seed, crate::cases::fam_hash(family), i, 0xabc]);
             let t0 = std::time::Instant::now();
-            eval_case(ctx, prop, &case, &mut rng, None);
+            crate::report::guarded(ctx, |ctx| eval_case(ctx, prop, &case, &mut rng, None));
             let dt = t0.elapsed().as_millis() as u64;
             ctx.maximum("slowest_case_ms", dt);
             if dt > 5_000 {
